@@ -18,7 +18,7 @@ Definition sr_stream_nodrop : sr_state :=
 
 Lemma reads_total_stream_nodrop : reads_total (b_disable_drop (b_init true)).
 Proof.
-  right. split; [reflexivity|]. split; [reflexivity|]. split.
+  right. left. split; [reflexivity|]. split; [reflexivity|]. split; [reflexivity|]. split.
   - intro x. cbn. destruct (N.ltb_spec x 0); [lia|reflexivity].
   - intros x X. cbn in X. discriminate.
 Qed.
@@ -50,6 +50,32 @@ Section StreamNoDrop.
   Qed.
 End StreamNoDrop.
 
+(* a tar member: read_block_FileTar reads every block of the member again on each miss, so every block can be read
+   at any time - the invariant of the plain machine holds: EVERY call history is answered as the spec says *)
+Section TarMember.
+  Variable dated : list N -> option Z.
+  Variable bs : N.
+  Variable f : file.
+  Hypothesis Hbs : 0 < bs.
+
+  Lemma cinv_tar : cinv dated bs f (cinit_b b_init_tar) /\ no_dangling (snd (cinit_b b_init_tar)).
+  Proof.
+    assert (LI : lr_inv bs f (lr_init_b b_init_tar)).
+    { split; [split; cbn; intros; try discriminate; contradiction|exact reads_total_init_tar]. }
+    split; [|intros a b v []]. split; [exact LI|]. split; [|exact I].
+    split; cbn; try (intros; discriminate); try (intros; contradiction). exact LI.
+  Qed.
+
+  Theorem tar_member_refines ops : Forall op_nodrop ops ->
+    map (obs_cres bs f) (snd (c_run dated bs f (cinit_b b_init_tar) ops)) = map (spec_cobs dated f) ops /\
+    forallb (fun x => negb (cres_panicked x)) (snd (c_run dated bs f (cinit_b b_init_tar) ops)) = true.
+  Proof.
+    intro ND. destruct cinv_tar as [CI NDG].
+    destruct (c_run dated bs f (cinit_b b_init_tar) ops) as [st xs] eqn:R.
+    destruct (c_run_nodrop dated bs f Hbs ops _ _ _ CI NDG ND R) as (_ & _ & M & P). auto.
+  Qed.
+End TarMember.
+
 (* ---------------------------------------------------------------- with drops enabled *)
 
 (* "a streamed reader answers find_sysline at any offset": NO.  After the reader has moved on to block 2
@@ -71,7 +97,7 @@ Qed.
 (* the stream invariant of a BlockReader with look-behind drops: everything read or cached lies below the
    decoder position, and the newest block (dec-1) is still stored *)
 Definition SI (b : bstate) : Prop :=
-  b_stream b = true /\
+  (b_stream b = true /\ b_kind b = 0) /\
   (forall x, nmem x (b_read b) = true -> x < b_dec b) /\
   (forall x, nmem x (b_lru b) = true -> x < b_dec b) /\
   (forall x, nmem x (b_blocks b) = true -> x < b_dec b) /\
@@ -97,7 +123,7 @@ Qed.
 
 Lemma SI_lru_put bo b : SI b -> bo < b_dec b -> SI (b_lru_put bo b).
 Proof.
-  intros (S1 & S2 & S3 & S4 & S5) L. unfold b_lru_put. repeat split; cbn [b_stream b_read b_lru b_blocks b_dec]; auto; try (apply S5; assumption).
+  intros ((S1 & SK) & S2 & S3 & S4 & S5) L. unfold b_lru_put. repeat split; cbn [b_stream b_kind b_read b_lru b_blocks b_dec]; auto; try (apply S5; assumption).
   intros x X. apply nmem_firstn in X. unfold nmem in X. cbn in X.
   destruct (N.eqb_spec x bo); [lia|]. cbn in X. apply S3. fold (nmem x (nrem bo (b_lru b))) in X.
   rewrite nmem_nrem in X. apply andb_true_iff in X as [X _]. exact X.
@@ -105,9 +131,9 @@ Qed.
 
 Lemma SI_drop_block refd b bo : SI b -> bo + 1 < b_dec b -> SI (b_drop_block refd b bo).
 Proof.
-  intros (S1 & S2 & S3 & S4 & S5) L. unfold b_drop_block. destruct (negb (b_drop b)).
+  intros ((S1 & SK) & S2 & S3 & S4 & S5) L. unfold b_drop_block. destruct (negb (b_drop b)).
   { repeat split; auto; apply S5; assumption. }
-  split; [exact S1|]. split; [exact S2|].
+  split; [split; [exact S1|exact SK]|]. split; [exact S2|].
   split; [intros x X; cbn [b_lru] in X; rewrite nmem_nrem in X; apply andb_true_iff in X as [X _]; auto|].
   split; [intros x X; cbn [b_blocks] in X; rewrite nmem_nrem in X; apply andb_true_iff in X as [X _]; auto|].
   intro H. cbn [b_dec b_read b_blocks] in *. destruct (S5 H) as [Y1 Y2]. split; [exact Y1|].
@@ -120,7 +146,7 @@ Lemma b_stream_loop_fwd fuel refd : forall b bo bo_at old,
   exists b', b_stream_loop fuel refd b bo bo_at old = (b', BFound) /\ SI b' /\ b_dec b' = bo + 1.
 Proof.
   induction fuel as [|k IH]; intros b bo bo_at old SIb L1 L2 L3 LO LO2 FU; [lia|].
-  pose proof SIb as (S1 & S2 & S3 & S4 & S5).
+  pose proof SIb as ((S1 & SK) & S2 & S3 & S4 & S5).
   cbn [b_stream_loop]. destruct (N.leb_spec bo_at bo) as [Q|Q]; [|lia].
   destruct (nmem bo_at (b_read b)) eqn:M.
   - pose proof (S2 _ M) as LT. destruct (N.eqb_spec bo_at bo); [lia|].
@@ -128,12 +154,12 @@ Proof.
   - assert (E : b_dec b = bo_at).
     { destruct (N.eq_dec (b_dec b) 0) as [Z|Z]; [lia|]. destruct (S5 ltac:(lia)) as [Y _].
       destruct (N.eq_dec (b_dec b - 1) bo_at) as [W|W]; [rewrite W in Y; congruence|lia]. }
-    cbn [b_cnt_up b_dec]. rewrite E, N.eqb_refl. cbn [negb].
-    set (b0 := mkB (b_stream (b_cnt_up e_miss b)) (b_drop (b_cnt_up e_miss b)) (b_blocks (b_cnt_up e_miss b))
+    cbn [b_cnt_up b_dec b_kind]. rewrite SK. cbn [N.eqb]. rewrite E, N.eqb_refl. cbn [negb].
+    set (b0 := mkB (b_stream (b_cnt_up e_miss b)) 0 (b_drop (b_cnt_up e_miss b)) (b_blocks (b_cnt_up e_miss b))
                    (b_read (b_cnt_up e_miss b)) (b_lru (b_cnt_up e_miss b)) (bo_at + 1) (b_cnt (b_cnt_up e_miss b))).
     assert (SI1 : SI (b_store bo_at b0)).
-    { unfold SI, b_store, b_lru_put, b0. cbn [b_stream b_read b_lru b_blocks b_dec b_cnt_up].
-      split; [exact S1|]. split; [|split; [|split]].
+    { unfold SI, b_store, b_lru_put, b0. cbn [b_stream b_kind b_read b_lru b_blocks b_dec b_cnt_up].
+      split; [split; [exact S1|reflexivity]|]. split; [|split; [|split]].
       - intros x X. rewrite nmem_nadd in X. destruct (N.eqb_spec x bo_at); [lia|]. cbn [orb] in X. specialize (S2 _ X). lia.
       - intros x X. apply nmem_firstn in X. unfold nmem in X. cbn [existsb] in X. destruct (N.eqb_spec x bo_at); [lia|].
         cbn [orb] in X. fold (nmem x (nrem bo_at (b_lru b))) in X. rewrite nmem_nrem in X.
@@ -156,23 +182,23 @@ Qed.
 Lemma b_read_block_fwd refd filesz last b bo : SI b -> b_dec b <= bo + 1 -> bo <= last -> 0 < filesz ->
   exists b', b_read_block refd filesz last b bo = (b', BFound) /\ SI b' /\ b_dec b' = N.max (b_dec b) (bo + 1).
 Proof.
-  intros SIb L1 L2 F. pose proof SIb as (S1 & S2 & S3 & S4 & S5).
+  intros SIb L1 L2 F. pose proof SIb as ((S1 & SK) & S2 & S3 & S4 & S5).
   unfold b_read_block. destruct (N.ltb_spec last bo); [lia|].
   destruct (nmem bo (b_lru b)) eqn:ML.
   { pose proof (S3 _ ML) as LT. eexists. split; [reflexivity|]. split; [|cbn; lia].
-    unfold SI. cbn [b_stream b_read b_lru b_blocks b_dec].
-    split; [exact S1|]. split; [exact S2|]. split; [|split; [exact S4|exact S5]].
+    unfold SI. cbn [b_stream b_kind b_read b_lru b_blocks b_dec].
+    split; [split; [exact S1|exact SK]|]. split; [exact S2|]. split; [|split; [exact S4|exact S5]].
     intros x X. unfold nmem in X. cbn [existsb] in X. destruct (N.eqb_spec x bo); [lia|]. cbn [orb] in X.
     fold (nmem x (nrem bo (b_lru b))) in X. rewrite nmem_nrem in X. apply andb_true_iff in X as [X _]. auto. }
   destruct (N.eqb_spec filesz 0); [lia|].
-  cbn [b_cnt_up b_read b_blocks b_stream]. rewrite S1.
+  cbn [b_cnt_up b_read b_blocks b_stream b_kind]. rewrite S1, SK. cbn [N.eqb].
   destruct (nmem bo (b_read b)) eqn:MR.
   - pose proof (S2 _ MR) as LT. assert (E : bo = b_dec b - 1) by lia.
     destruct (S5 ltac:(lia)) as [_ Y]. rewrite <- E in Y. rewrite Y.
     eexists. split; [reflexivity|]. split; [|cbn; lia].
-    apply SI_lru_put; [|cbn; lia]. unfold SI; cbn [b_stream b_read b_lru b_blocks b_dec b_cnt_up]; auto.
+    apply SI_lru_put; [|cbn; lia]. unfold SI; cbn [b_stream b_kind b_read b_lru b_blocks b_dec b_cnt_up]; auto.
   - set (b0 := b_cnt_up e_miss (b_cnt_up e_lru_miss b)).
-    assert (SI0 : SI b0) by (unfold SI, b0; cbn [b_stream b_read b_lru b_blocks b_dec b_cnt_up]; auto).
+    assert (SI0 : SI b0) by (unfold SI, b0; cbn [b_stream b_kind b_read b_lru b_blocks b_dec b_cnt_up]; auto).
     assert (GE : b_dec b <= bo).
     { destruct (N.eq_dec (b_dec b) 0); [lia|]. destruct (S5 ltac:(lia)) as [Y _].
       destruct (N.eq_dec (b_dec b - 1) bo) as [W|W]; [rewrite W in Y; congruence|lia]. }
@@ -197,9 +223,9 @@ Lemma b_read_block_gone refd filesz last b bo : SI b -> b_drop b = true ->
   nmem bo (b_lru b) = false -> nmem bo (b_blocks b) = false -> bo + 1 < b_dec b -> 0 < filesz -> bo <= last ->
   exists b', b_read_block refd filesz last b bo = (b', BDone).
 Proof.
-  intros (S1 & S2 & S3 & S4 & S5) DR ML MB LT F L. unfold b_read_block.
+  intros ((S1 & SK) & S2 & S3 & S4 & S5) DR ML MB LT F L. unfold b_read_block.
   destruct (N.ltb_spec last bo); [lia|]. rewrite ML. destruct (N.eqb_spec filesz 0); [lia|].
-  cbn [b_cnt_up b_read b_blocks b_stream]. rewrite S1, MB.
+  cbn [b_cnt_up b_read b_blocks b_stream b_kind]. rewrite S1, SK, MB. cbn [N.eqb].
   destruct (S5 ltac:(lia)) as [Y _].
   assert (NM : forall l, nmem (b_dec b - 1) l = true -> bo < nmax l \/ True) by auto.
   destruct (nmem bo (b_read b)) eqn:MR.
@@ -348,3 +374,9 @@ Theorem find_line_stream_forward bs (f : file) l fo l' r p : 0 < bs ->
   c_find_line bs f l fo = (l', r, p) ->
   lr_inv0 bs f l' /\ lSI l' /\ lres_ok bs f fo r /\ ldec l <= ldec l' /\ ldec l' <= blk bs (line_end f fo) + 1.
 Proof. intro H. exact (find_line_stream_fwd bs f H l fo l' r p). Qed.
+
+Theorem tar_refines dated bs (f : file) ops : 0 < bs -> Forall op_nodrop ops ->
+  map (obs_cres bs f) (snd (c_run dated bs f (cinit_b b_init_tar) ops)) = map (spec_cobs dated f) ops /\
+  forallb (fun x => negb (cres_panicked x)) (snd (c_run dated bs f (cinit_b b_init_tar) ops)) = true.
+Proof. intro H. exact (tar_member_refines dated bs f H ops). Qed.
+
